@@ -112,22 +112,24 @@ Fixpoint dec_pods (h : list op) (k : nat) (l : list Z) : list pinfo * list Z :=
   | _, _ => ([], l)
   end.
 
-Definition dec_q (h : list op) (l : list Z) : (qshape * racc * uacc * list pinfo) * list Z :=
+Definition dec_q (h : list op) (l : list Z) : (qshape * racc * uacc * list pinfo * Z) * list Z :=
   let a := fun i => nthZ l i in
   let v := fun i => (nthZ l i, nthZ l (i + 1)) in
   let '(ps, r) := dec_pods h (Z.to_nat (a 27%nat)) (skipn 28 l) in
   ((mkQ (a 0%nat) (a 1%nat) (zb (a 2%nat)) (zb (a 3%nat)) (v 4%nat) (v 6%nat),
     mkR (v 8%nat) (v 10%nat) (v 12%nat) (v 14%nat) (v 16%nat),
-    mkU (v 18%nat) (v 20%nat) (v 22%nat) (v 24%nat), ps), r).
+    mkU (v 18%nat) (v 20%nat) (v 22%nat) (v 24%nat), ps, a 26%nat), r).
 
-Definition snapshot_state (qs : list (qshape * racc * uacc * list pinfo)) : state :=
-  fold_right (fun x st => let '(q, r, u, ps) := x in
+Definition snapshot_state (qs : list (qshape * racc * uacc * list pinfo * Z)) : state :=
+  fold_right (fun x st => let '(q, r, u, ps, _) := x in
                 mkSt (q :: st_sh st) (fupd (st_r st) (q_name q) r) (fupd (st_u st) (q_name q) u)
                      (fupd (st_p st) (q_name q) ps))
              (mkSt [] (fun _ => r0) (fun _ => u0) (fun _ => [])) qs.
 
-Definition dec_snapshot (h : list op) (l : list Z) : state * list Z :=
-  let '(qs, r) := decode_seq (dec_q h) l in (snapshot_state qs, r).
+(* the snapshot, the number of amounts found under keys outside the quota dimensions, the rest *)
+Definition dec_snapshot (h : list op) (l : list Z) : state * Z * list Z :=
+  let '(qs, r) := decode_seq (dec_q h) l in
+  (snapshot_state qs, fold_right (fun x acc => let '(_, _, _, _, k) := x in k + acc) 0 qs, r).
 
 (* walk the history with the model state alongside (only to evaluate the informer discipline);
    every snapshot up to the first operation outside the discipline must satisfy the property *)
@@ -139,8 +141,8 @@ Fixpoint check_steps (fuel : nat) (s : state) (done rest : list op) (obs : list 
         | [] => 99                                  (* a snapshot is missing *)
         | _ =>
             let h := done ++ [o] in
-            let '(snap, obs') := dec_snapshot h obs in
-            let c := state_code snap in
+            let '(snap, leak, obs') := dec_snapshot h obs in
+            let c := if leak =? 0 then state_code snap else 13 in   (* 13: the mask was not applied *)
             if c =? 0 then check_steps f (step s o) h t obs' else c
         end
       else 0
